@@ -60,9 +60,20 @@ def canon_exec(names, r):
     """EXEC's reply: each slot canonicalised as a reply to the command queued in that slot"""
     if r[0] != "a":
         return canon_reply("", r)
-    if len(r[1]) != len(names):
-        return "( a%s )" % "".join(" " + canon_reply("", x) for x in r[1])
-    return "( a%s )" % "".join(" " + canon_reply(n, x) for n, x in zip(names, r[1]))
+    cands = [names] if (not names or isinstance(names[0], str)) else names
+    for ns in cands:
+        if len(r[1]) == len(ns):
+            return "( a%s )" % "".join(" " + canon_reply(n, x) for n, x in zip(ns, r[1]))
+    return "( a%s )" % "".join(" " + canon_reply("", x) for x in r[1])
+
+
+def exec_names(queue):
+    """the names of the commands whose replies EXEC's array holds: as prescribed, and as the source variant queues them
+    (an UNWATCH the source runs at once inside MULTI has no slot)"""
+    names = [name_of(c) for c in queue]
+    if switches().get("unwatch-in-multi"):
+        return [names, [n for n in names if n != "UNWATCH"]]
+    return [names]
 
 
 def dump_db(cli, db):
@@ -110,8 +121,11 @@ class Model:
             out.append((int(cid), rep))
         return out
 
-    def frame(self, conn, args, watch_ok=True):
-        a = self.ask("frame %d %d %d %s" % (conn, self.now(), 1 if watch_ok else 0, " ".join(hx(x) for x in args)))
+    def frame(self, conn, args, watch_ok=True, watch_ok_code=None):
+        """watch_ok: the outcome of the WATCH check the property prescribes for an EXEC; watch_ok_code: the outcome for the
+        source variant when the source drops watches the property keeps (default: the same)"""
+        w = "%d" % watch_ok if (watch_ok_code is None or watch_ok_code == watch_ok) else "%d%d" % (watch_ok_code, watch_ok)
+        a = self.ask("frame %d %d %s %s" % (conn, self.now(), w, " ".join(hx(x) for x in args)))
         code, spec, same, dcode, dspec = a.split(" # ")
         self.last_deliveries = (self._deliv(dcode), self._deliv(dspec))
         return code, spec, same == "same"
@@ -139,11 +153,40 @@ class Model:
         self.p.close()
 
 
+def top_slots(x):
+    """the slots of a canonical array reply `( a slot slot .. )`, None for anything else"""
+    t = x.split(" ")
+    if len(t) < 3 or t[0] != "(" or t[1] != "a" or t[-1] != ")":
+        return None
+    out, depth, cur = [], 0, []
+    for tok in t[2:-1]:
+        cur.append(tok)
+        if tok == "(":
+            depth += 1
+        elif tok == ")":
+            depth -= 1
+            if depth == 0:
+                out.append(" ".join(cur))
+                cur = []
+    return out if depth == 0 and not cur else None
+
+
+def eqx(impl, model):
+    """equality of canonical replies where the model's `( ext )` (a reply produced by a subsystem the model only
+    hands the command to: CLIENT, pub/sub, ..) stands for any reply"""
+    if "( ext )" not in model:
+        return impl == model
+    if model == "( ext )":
+        return not impl.startswith(("closed", "nothing"))
+    a, b = top_slots(impl), top_slots(model)
+    return a is not None and b is not None and len(a) == len(b) and all(eqx(x, y) for x, y in zip(a, b))
+
+
 def failed_oracle(impl, code, spec, same):
     """the property's verdict on one reply: the implementation must answer what is prescribed, and when it
     answers what the source variant of the model answers, that variant's state must be the prescribed one
     (a model/implementation disagreement alone is not a verdict: dumps are compared with the prescribed state)"""
-    return impl != spec or (impl == code and not same)
+    return (not eqx(impl, spec)) or (eqx(impl, code) and not same)
 
 
 BPOP_KEYS = [b"l", b"bq", b"bq2", b"k1", b"miss"]
@@ -201,6 +244,14 @@ class QueueGen:
             elif k < 28:
                 out.append([r.choice([b"BLPOP", b"BRPOP"]), b"l"] + r.choice([[], [b"abc"], [b"-1"]]))
                 shapes.append("bpop-bad")
+            elif k < 32 and specials:
+                # UNWATCH between MULTI and EXEC: only queued, OK in its slot (well-formed) / an error in its slot (surplus argument)
+                out.append([b"UNWATCH"] if r.chance(2, 3) else [b"UNWATCH", b"junk"])
+                shapes.append("unwatch" if len(out[-1]) == 1 else "unwatch-junk")
+            elif k < 35 and specials:
+                # commands about the connection itself: they must act on the connection that queued them
+                out.append(r.choice([[b"CLIENT", b"SETNAME", r.choice([b"worker-7", b"w2"])], [b"CLIENT", b"GETNAME"], [b"client", b"getname"]]))
+                shapes.append("client")
             else:
                 out.append(self.g.command())
                 shapes.append(self.g.last_shape or "plain")
@@ -307,7 +358,7 @@ def run_twin_case(tw, case, rep=None):
         st = {"frame": [hx(x) for x in args], "text": " ".join(repr(x.decode("latin-1")) for x in args), "what": what,
               "impl": impl, "code": code, "spec": spec, "same": same}
         res["steps"].append(st)
-        if impl != code:
+        if not eqx(impl, code):
             res["disagree"].append(st)
         if failed_oracle(impl, code, spec, same):
             res["oracle"].append(dict(st, why="reply (or the state the model's source variant reaches with it) differs from the prescribed one"))
@@ -328,6 +379,7 @@ def run_twin_case(tw, case, rep=None):
         tw.impl(tw.t, c)
     before = dump_db(tw.b, 0) if mode["check_before"] else None
     names = [name_of(c) for c in queue]
+    xnames = exec_names(queue)
 
     if mode["exec_first"]:
         r = step(tw.a, [b"EXEC"], "exec-without-multi")
@@ -349,7 +401,7 @@ def run_twin_case(tw, case, rep=None):
         if raw is not None:
             for i, f in enumerate(frames):
                 last = i == len(frames) - 1
-                impl = canon_exec(names, raw[i]) if (last and term == b"EXEC") else canon_reply(name_of(f), raw[i])
+                impl = canon_exec(xnames, raw[i]) if (last and term == b"EXEC") else canon_reply(name_of(f), raw[i])
                 code, spec, same = m.frame(cid, f)
                 st = record(impl, code, spec, same, f, "pipelined")
                 if 0 < i < len(frames) - 1:
@@ -359,6 +411,10 @@ def run_twin_case(tw, case, rep=None):
             for f in frames:
                 m.frame(cid, f)
     else:
+        if mode.get("malformed") in ("multi", "both"):
+            r = step(tw.a, [b"MULTI", b"junk"], "malformed-multi")
+            oracle(r == "( e )", "MULTI with a surplus argument must be refused", got=r)
+            res["tags"].add("control-arity")
         r = step(tw.a, [b"MULTI"], "multi")
         oracle(r == OK, "MULTI must answer OK", got=r)
         nested_at = None
@@ -376,8 +432,13 @@ def run_twin_case(tw, case, rep=None):
             oracle(mid == before, "queued commands took effect before EXEC", before=before, after=mid)
             if rep:
                 rep.evaluations += 1
+        if mode.get("malformed") in ("end", "both") and mode["end"] in ("exec", "discard"):
+            bad = [b"EXEC", b"junk"] if mode["end"] == "exec" else [b"DISCARD", b"junk", b"x"]
+            r = step(tw.a, bad, "malformed-" + mode["end"], names=xnames)
+            oracle(r == "( e )", "%s with a surplus argument must be refused (and must neither run nor drop the queue)" % mode["end"].upper(), got=r)
+            res["tags"].add("control-arity")
         if mode["end"] == "exec":
-            exec_reply = step(tw.a, [b"EXEC"], "exec", names=names)
+            exec_reply = step(tw.a, [b"EXEC"], "exec", names=xnames)
         elif mode["end"] == "discard":
             r = step(tw.a, [b"DISCARD"], "discard")
             oracle(r == OK, "DISCARD must answer OK", got=r)
@@ -453,6 +514,8 @@ def run_twin_case(tw, case, rep=None):
             res["tags"].add("blocking-in-exec")
     if any(n == "SELECT" for n in names):
         res["tags"].add("select-in-exec")
+    for c in queue:
+        res["tags"] |= shape_tags(c, True)
     return res
 
 
@@ -474,7 +537,7 @@ def protocol_scenarios(tw, rep):
         code, spec, same = m.frame(conn, args, watch_ok)
         st = {"text": " ".join(repr(x.decode("latin-1")) for x in args) or "<empty frame>", "impl": impl, "code": code, "spec": spec, "same": same}
         rep.evaluations += 1
-        if impl != code:
+        if not eqx(impl, code):
             out["disagree"].append(st)
         if failed_oracle(impl, code, spec, same):
             out["oracle"].append(dict(st, why="reply or resulting state differs from the prescribed one"))
@@ -539,7 +602,9 @@ def gen_chain(r):
                        "nested": r.below(7) if r.chance(1, 5) else 0, "queue": [[hx(x) for x in c] for c in q], "end": end,
                        # once the transaction has ended (in whatever way) its WATCHes are gone: another connection then changes every
                        # key it had watched, and the NEXT transaction on this connection must run
-                       "stale_touch": bool(watch) and not last and r.chance(3, 4)})
+                       "stale_touch": bool(watch) and not last and r.chance(3, 4),
+                       # WATCH ..; UNWATCH junk: refused, the keys stay watched
+                       "malformed_unwatch": bool(watch) and r.chance(1, 6)})
     return {"kind": "chain", "setup": [[hx(x) for x in c] for c in g.setup()], "rounds": rounds}
 
 
@@ -548,6 +613,7 @@ def chain_text(case):
         return " ".join(unhx(x).decode("latin-1") for x in c)
     return {"setup": [t(c) for c in case["setup"]],
             "rounds": [{"watch": [unhx(x).decode("latin-1") for x in rd["watch"]], "then_unwatch": rd.get("unwatch", False),
+                        "then_unwatch_with_a_surplus_argument": rd.get("malformed_unwatch", False),
                         "another_connection_changes_watched_key": rd["touch"], "and_again_after_the_transaction_ended": rd.get("stale_touch", False), "first": rd["pre"],
                         "nested_multi_at": rd["nested"], "queue": [t(c) for c in rd["queue"]], "end": rd["end"]} for rd in case["rounds"]]}
 
@@ -557,12 +623,12 @@ def run_chain_case(tw, case, rep=None):
     m, cid = tw.model, tw.cid
     res = {"steps": [], "oracle": [], "disagree": [], "tags": set()}
 
-    def step(cli, args, what, names=None, conn=None, watch_ok=True):
+    def step(cli, args, what, names=None, conn=None, watch_ok=True, watch_ok_code=None):
         impl = tw.impl(cli, args, names)
-        code, spec, same = m.frame(cid if conn is None else conn, args, watch_ok)
+        code, spec, same = m.frame(cid if conn is None else conn, args, watch_ok, watch_ok_code)
         st = {"text": " ".join(repr(x.decode("latin-1")) for x in args), "what": what, "impl": impl, "code": code, "spec": spec, "same": same}
         res["steps"].append(st)
-        if impl != code:
+        if not eqx(impl, code):
             res["disagree"].append(st)
         if failed_oracle(impl, code, spec, same):
             res["oracle"].append(dict(st, why="reply (or the state the model's source variant reaches with it) differs from the prescribed one"))
@@ -602,9 +668,22 @@ def run_chain_case(tw, case, rep=None):
             if rd.get("unwatch"):
                 r0 = step(tw.a, [b"UNWATCH"], "unwatch")
                 oracle(r0 == OK, "UNWATCH must answer OK", got=r0, round=ri)
+            if rd.get("malformed_unwatch"):
+                r0 = step(tw.a, [b"UNWATCH", b"junk"], "malformed-unwatch")
+                oracle(r0 == "( e )", "UNWATCH with a surplus argument must be refused (the keys stay watched)", got=r0, round=ri)
+                res["tags"].add("control-arity")
+        # what is still watched when EXEC checks: the property (a valid UNWATCH sent OUTSIDE a transaction drops the watches; one sent
+        # between MULTI and EXEC is only queued; a malformed one is refused) / the source variant (switches read off the source)
+        armed_spec = bool(watch) and not rd.get("unwatch")
+        armed_code = armed_spec and not (rd.get("malformed_unwatch") and switches().get("control-arity"))
+        if switches().get("unwatch-in-multi") and any(name_of(c) == "UNWATCH" and (len(c) == 1 or switches().get("control-arity")) for c in queue):
+            armed_code = False
+        changed = False
+        for c in queue:
+            res["tags"] |= shape_tags(c, True)
         if watch and rd["touch"] == "before-multi":
             touch(watch[:1], "another-connection-changes-watched-key")
-            touched = not rd.get("unwatch")
+            changed = True
         r0 = step(tw.a, [b"MULTI"], "multi")
         oracle(r0 == OK, "MULTI must answer OK", got=r0, round=ri)
         nested_at = rd["nested"] % (len(queue) + 1) if (rd["nested"] and queue) else None
@@ -616,9 +695,10 @@ def run_chain_case(tw, case, rep=None):
             oracle(r0 == QUEUED, "a command between MULTI and EXEC must be answered QUEUED", got=r0, round=ri)
         if watch and rd["touch"] == "after-queue":
             touch(watch[:1], "another-connection-changes-watched-key")
-            touched = not rd.get("unwatch")
+            changed = True
+        touched = changed and armed_spec
         if rd["end"] == "exec":
-            got = step(tw.a, [b"EXEC"], "exec", names=names, watch_ok=not touched)
+            got = step(tw.a, [b"EXEC"], "exec", names=exec_names(queue), watch_ok=not touched, watch_ok_code=not (changed and armed_code))
             if touched:
                 oracle(got == "( na )", "EXEC after a WATCHed key was changed by another connection must answer a null array", got=got, round=ri)
                 outcome = "aborted-by-watch"
@@ -664,7 +744,7 @@ def shrink_chain(case, findings):
 
     def fails(c):
         res = run_chain_case(tw, c)
-        return bool(res["oracle"])
+        return bool(res["oracle"]) and classify(res, findings) is None
     try:
         if not fails(case):
             return case
@@ -795,7 +875,7 @@ def run_straddle_case(tw, case, rep=None):
         st = {"text": " ".join(repr(x.decode("latin-1")) for x in f), "what": "first-write" if i <= split else "second-write", "impl": have, "twin": twin[i],
               "code": code, "spec": spec, "same": same}
         res["steps"].append(st)
-        if have != code:
+        if not eqx(have, code):
             res["disagree"].append(st)
         if have != twin[i]:
             res["oracle"].append(dict(st, why="reply %d of the stream differs from the twin's, where the same frames were sent without blocking (frames of a blocked "
@@ -864,7 +944,9 @@ def gen_mode(r):
     end = "exec" if k < 66 else ("discard" if k < 80 else ("disconnect" if k < 94 else "quit"))
     pipelined = end in ("exec", "discard") and r.chance(1, 5)
     return {"end": end, "pipelined": pipelined, "nested": r.below(13) if (not pipelined and r.chance(1, 5)) else 0,
-            "exec_first": r.chance(1, 8), "check_before": r.chance(1, 3)}
+            "exec_first": r.chance(1, 8), "check_before": r.chance(1, 3),
+            # MULTI / EXEC / DISCARD with a surplus argument: refused, nothing changes
+            "malformed": r.choice(["multi", "end", "both"]) if (not pipelined and r.chance(1, 7)) else None}
 
 
 def case_text(case):
@@ -881,12 +963,25 @@ def case_from_json(o):
     return {"setup": [[unhx(x) for x in c] for c in o["setup"]], "queue": [[unhx(x) for x in c] for c in o["queue"]], "mode": o["mode"]}
 
 
+def shape_tags(args, in_tx):
+    """shapes of the open findings a frame can have: (name, sent inside a transaction?)"""
+    nm = name_of(args)
+    out = set()
+    if nm == "UNWATCH" and in_tx:
+        out.add("unwatch-in-multi")
+    if nm in ("MULTI", "EXEC", "DISCARD", "UNWATCH") and len(args) != 1:
+        out.add("control-arity")
+    if nm == "CLIENT" and in_tx:
+        out.add("client-conn-zero")
+    return out
+
+
 def classify(res, findings):
-    """An oracle failure is a listed finding iff the Code model (which embodies the finding) predicted
-    every reply and dump, and the case has the finding's shape."""
+    """An oracle failure is a listed finding iff the source variant of the model (which embodies the listed
+    deviations and nothing else) predicted every reply, delivery and dump, and the case has a finding's shape."""
     if res["disagree"]:
         return None
-    for tag in ("blocking-in-exec", "select-in-exec"):
+    for tag in ("blocking-in-exec", "select-in-exec", "unwatch-in-multi", "control-arity", "client-conn-zero"):
         if tag in res["tags"] and tag in findings:
             return findings[tag]
     return None
@@ -941,6 +1036,7 @@ def run_interleaved(rep, tw, r, n_events, given=None):
         connect(s)
     events, oracle, disagree = [], [], []
     burst = {}          # slot -> commands still to send: a transaction working several times on a key somebody waits on
+    case_tags = set()   # shapes of open findings met in this schedule
 
     def note(key):
         if rep:
@@ -1011,10 +1107,12 @@ def run_interleaved(rep, tw, r, n_events, given=None):
                             args = [b"DISCARD"]
                         elif k < 84:
                             args = [b"MULTI"]
-                        elif k < 87:
+                        elif k < 86:
                             args = [b"WATCH", b"k1"]
                         elif k < 89:
-                            args = [b"UNWATCH"]
+                            # only queued (UNWATCH, CLIENT ..) / refused without any effect (surplus arguments)
+                            args = r.choice([[b"UNWATCH"], [b"UNWATCH"], [b"UNWATCH", b"junk"], [b"EXEC", b"junk"], [b"DISCARD", b"junk", b"x"],
+                                             [b"CLIENT", b"SETNAME", b"n1"], [b"CLIENT", b"GETNAME"]])
                         elif k < 92:
                             kind, args = "disc", []
                         elif k < 96:
@@ -1027,7 +1125,7 @@ def run_interleaved(rep, tw, r, n_events, given=None):
                         elif k < 36:
                             args = [b"SELECT", r.choice([b"0", b"1", b"1", b"16"])]
                         elif k < 40:
-                            args = [r.choice([b"EXEC", b"DISCARD"])]
+                            args = r.choice([[b"EXEC"], [b"DISCARD"], [b"EXEC"], [b"DISCARD"], [b"MULTI", b"junk"], [b"UNWATCH", b"junk"], [b"WATCH"], [b"UNWATCH"]])
                         elif k < 43:
                             kind, args = "disc", []
                         elif k < 68:
@@ -1047,6 +1145,9 @@ def run_interleaved(rep, tw, r, n_events, given=None):
             _, intx, qlen, _ = m.conn(cid)
             nm = name_of(args)
             names = qn.get(cid, []) if (nm == "EXEC" and intx) else None
+            case_tags |= shape_tags(args, intx)
+            if names and "SELECT" in names:
+                case_tags.add("select-in-exec")
             code, spec, same = m.frame(cid, args)
             deliv = m.last_deliveries
             if spec == "( noresponse )":
@@ -1092,7 +1193,7 @@ def run_interleaved(rep, tw, r, n_events, given=None):
                 rep.count("il.%s.%s" % ("tx" if intx else "idle", cls))
                 rep.nontrivial(("il", intx, cls, "err" if impl == "( e )" else ("queued" if impl == QUEUED else ("blocks" if impl == "( noresponse )" else "ok")),
                                 bool(blocked), bool(deliv[1])))
-            if impl != code:
+            if not eqx(impl, code):
                 disagree.append(st)
             if failed_oracle(impl, code, spec, same):
                 oracle.append(dict(st, tag="select-in-exec" if (nm == "EXEC" and "SELECT" in (names or [])) else None))
@@ -1137,7 +1238,8 @@ def run_interleaved(rep, tw, r, n_events, given=None):
     finally:
         for c in clis.values():
             c.close()
-    case = {"kind": "interleaved", "setup": [[hx(x) for x in c] for c in setup], "nconn": nconn, "events": [e for e in events if e[1] != "drain"]}
+    case = {"kind": "interleaved", "setup": [[hx(x) for x in c] for c in setup], "nconn": nconn, "events": [e for e in events if e[1] != "drain"],
+            "tags": sorted(case_tags)}
     if oracle or disagree:
         tw.restart()        # a waiter may have been left behind: no FLUSHALL removes it
     return case, oracle, disagree
@@ -1325,8 +1427,21 @@ def source_switches():
     import tx_facts
     f = tx_facts.facts(extract.src, extract.strip_comments, extract.fn_body, extract.REPO)
     pre, thru = f.get("pre_queue"), f.get("pass_through")
+    hard = ("MULTI", "EXEC", "DISCARD", "WATCH")
     return {"select-in-exec": f.get("select_ignored"), "blocking-in-exec": f.get("blocking_unguarded"),
-            "immediate-in-multi": None if pre is None or thru is None else any(n not in thru for n in pre)}
+            "immediate-in-multi": None if pre is None or thru is None else any(n not in thru and n not in hard and n != "UNWATCH" for n in pre),
+            "unwatch-in-multi": None if pre is None or thru is None else ("UNWATCH" in thru or "UNWATCH" in pre),
+            "control-arity": f.get("arity_unchecked"), "client-conn-zero": f.get("client_conn_zero")}
+
+
+_SW = None
+
+
+def switches():
+    global _SW
+    if _SW is None:
+        _SW = source_switches()
+    return _SW
 
 
 WITNESSES = {"select-in-exec": witness_select, "blocking-in-exec": witness_blocking, "immediate-in-multi": witness_publish}
@@ -1423,7 +1538,11 @@ def main(tier, seed):
             rep.evaluations += len(res["steps"]) + 1
             rep.traces_validated += 1
             if res["oracle"]:
-                new_fail.append(("chain of transactions on one connection: %s" % res["oracle"][0]["why"], dict(case, text=chain_text(case)), res))
+                f = classify(res, findings)
+                if f:
+                    known_seen.setdefault(f["id"], (f, case))
+                else:
+                    new_fail.append(("chain of transactions on one connection: %s" % res["oracle"][0]["why"], dict(case, text=chain_text(case)), res))
             if res["disagree"]:
                 disagreements.append({"case": case, "first": res["disagree"][0], "with_oracle_failure": bool(res["oracle"])})
             if i < 1:
@@ -1460,9 +1579,9 @@ def main(tier, seed):
             case, orc, dis = run_interleaved(rep, tw, rr, rr.range(25, 60))
             rep.traces_validated += 1
             if orc:
-                tags = {o.get("tag") for o in orc}
-                if not dis and tags == {"select-in-exec"} and "select-in-exec" in findings:
-                    known_seen.setdefault(findings["select-in-exec"]["id"], (findings["select-in-exec"], case))
+                hit = [t for t in case.get("tags", []) if t in findings]
+                if not dis and hit:
+                    known_seen.setdefault(findings[hit[0]]["id"], (findings[hit[0]], case))
                 else:
                     new_fail.append(("interleaved connections: reply or state differs from the prescribed one at event %s" % orc[0].get("event"),
                                      case, {"oracle": orc[:5], "disagree": dis[:5]}))
@@ -1581,8 +1700,8 @@ def shrink_interleaved(case, findings):
     tw = Twin(rep)
 
     def fails(c):
-        _, orc, dis = run_interleaved(None, tw, Rng(0), 0, given=c)
-        return bool(orc) and not (not dis and all(o.get("tag") in findings for o in orc))
+        cs, orc, dis = run_interleaved(None, tw, Rng(0), 0, given=c)
+        return bool(orc) and not (not dis and any(t in findings for t in cs.get("tags", [])))
     try:
         if not fails(case):
             return case
@@ -1636,17 +1755,18 @@ def replay(path):
     if kind == "interleaved":
         tw = Twin(rep)
         try:
-            _, orc, dis = run_interleaved(None, tw, Rng(0), 0, given=rp)
+            rcase, orc, dis = run_interleaved(None, tw, Rng(0), 0, given=rp)
         finally:
             tw.close()
         for o in orc:
             print("ORACLE:", o)
         for d in dis:
             print("MODEL-DISAGREES:", d)
-        if orc and not (not dis and all(o.get("tag") in findings for o in orc)):
+        hit = [t for t in rcase.get("tags", []) if t in findings]
+        if orc and not (not dis and hit):
             print("VIOLATION property=C07 replay=%s" % path)
             return 1
-        print("OK (the property's oracle holds on this replay)" if not orc else "KNOWN-FINDING: property=C07 %s" % findings["select-in-exec"]["id"])
+        print("OK (the property's oracle holds on this replay)" if not orc else "KNOWN-FINDING: property=C07 %s" % findings[hit[0]]["id"])
         return 0
     if kind == "straddle":
         tw = Twin(rep)
